@@ -121,7 +121,7 @@ func zxC15ProcessInserts() {
 			go func() { rs.inserts <- zxMkInsert(m) }()
 		case "skip":
 			inserts = append(inserts, m)
-			go func() { rs.inserts <- &insert{nil, nil, nil, wal.NewOffset(1, m.seq), 0} }()
+			go func() { rs.inserts <- &insert{offset: wal.NewOffset(1, m.seq), source: 0} }()
 		case "alter":
 			altered = true
 			go func() {
@@ -185,4 +185,149 @@ func zxC15ProcessInserts() {
 	vrtAssert(zxMapEq(got.a, want.a), "field a on disk = fold of exactly the inserts up to the recovered offset (script "+zxItoa(scriptIdx)+", crash step "+zxItoa(crashAt)+")")
 	vrtAssert(zxMapEq(got.b, want.b), "field b on disk = fold of exactly the inserts processed after the alteration, up to the recovered offset (crash step "+zxItoa(crashAt)+")")
 	vrtReach("P")
+}
+
+// zxInsertVals: the values of field "a" that one row-store insert applies.
+func zxInsertVals(in *insert) []float64 {
+	var out []float64
+	all := append([]encoding.TSParams{in.vals}, in.moreVals...)
+	for _, tsp := range all {
+		_, params := tsp.TimeAndParams()
+		if v, ok := params.Get("a"); ok {
+			out = append(out, v)
+		}
+	}
+	return out
+}
+
+// zxArrayParts runs the real table.doInsert on an ordinary point (WAL offset 5) and on a point
+// whose value is an array of n numbers (offset 10) and captures the row-store inserts it sends.
+func zxArrayParts(t *table, rs *rowStore) (parts []*insert, produced map[int64]float64, count map[int64]int, arr []float64) {
+	rs.inserts = make(chan *insert, 64)
+	n := vrtShape("elems", 3) + 1
+	arr = make([]float64, n)
+	for i := range arr {
+		arr[i] = float64(int(1) << uint(i)) // distinct powers of two: a sum identifies the multiset
+	}
+	dims := bytemap.New(map[string]interface{}{"k": "x"})
+	vrtAssert(t.doInsert(zxNow, dims, bytemap.New(map[string]interface{}{"a": 64.0}), wal.NewOffset(1, 5), 0), "the plain point is accepted")
+	vrtAssert(t.doInsert(zxNow, dims, bytemap.New(map[string]interface{}{"a": arr}), wal.NewOffset(1, 10), 0), "the array-valued point is accepted")
+	produced = map[int64]float64{} // per WAL offset: the sum of the values handed to the row store
+	count = map[int64]int{}
+	for len(rs.inserts) > 0 {
+		p := <-rs.inserts
+		parts = append(parts, p)
+		for _, v := range zxInsertVals(p) {
+			produced[p.offset.Position()] += v
+			count[p.offset.Position()]++
+		}
+	}
+	vrtAssert(len(parts) >= 2, "doInsert produced row-store inserts")
+	return
+}
+
+// C01.A — a point whose value is an array of n numbers contributes exactly those n values, each
+// once (and an ordinary point exactly its one value): what the real table.doInsert hands to the
+// row store, and what the real processInserts loop has put on disk after a clean stop.
+//
+//zx:harness prop=C01 id=C01.A tier=quick env=fs
+func zxC01ArrayInsert() {
+	zxFSReset()
+	fields := core.Fields{core.PointsField, zxFieldA}
+	t, rs := zxTable(fields)
+	parts, produced, count, arr := zxArrayParts(t, rs)
+	n := len(arr)
+	total := 0.0
+	for _, v := range arr {
+		total += v
+	}
+	vrtAssert(count[5] == 1 && produced[5] == 64, "the plain point reaches the row store once")
+	vrtAssert(count[10] == n && produced[10] == total, "an array of "+zxItoa(n)+" values reaches the row store as exactly those values, each once")
+	rs.inserts = make(chan *insert)
+	rs.opts.maxFlushLatency = time.Hour
+	rs.opts.minFlushLatency = time.Millisecond
+	stop := make(chan interface{})
+	for _, p := range parts {
+		p := p
+		go func() { rs.inserts <- p }()
+	}
+	go func() { close(stop) }()
+	rs.processInserts(make(common.OffsetsBySource), stop)
+	got, ok := zxRecover2(fields)
+	vrtAssert(ok && got.offs == 10, "after a clean stop everything processed is on disk")
+	vrtAssert(got.a["x"] == 64+total, "SUM on disk = the plain value plus every element of the array, each once ("+zxItoa(n)+" elements)")
+	vrtReach("C01.A")
+}
+
+// C02.A — the same two entries through the real processInserts loop under a scripted
+// interleaving in which a flush (timer or forced — the select may pick it between any two
+// receives) lands after the j-th row-store insert, and the process is killed at a solver-chosen
+// later file-system operation or stopped cleanly; what a restart finds must hold everything
+// doInsert produced for an entry or nothing of it, according to the recovered offset (an entry
+// at or below the offset is not replayed). Whether doInsert produced the right values is C01.A.
+//
+//zx:harness prop=C02 id=C02.A tier=quick env=fs shard=elems:3 maxops=40 thorough.maxops=80
+func zxC02ArrayInsert() {
+	zxFSReset()
+	fields := core.Fields{core.PointsField, zxFieldA}
+	t, rs := zxTable(fields)
+	parts, produced, _, arr := zxArrayParts(t, rs)
+	n := len(arr)
+
+	rs.inserts = make(chan *insert)
+	rs.forceFlushes = make(chan bool)
+	rs.forceFlushCompletes = make(chan bool, 16)
+	rs.opts.maxFlushLatency = time.Hour
+	rs.opts.minFlushLatency = time.Millisecond
+	stop := make(chan interface{})
+	flushAfter := vrtShape("flushAfter", len(parts)+1) // 0 = no flush inside the script
+	for i, p := range parts {
+		p := p
+		go func() { rs.inserts <- p }()
+		if flushAfter == i+1 {
+			go func() { rs.forceFlushes <- true }()
+		}
+	}
+	go func() { close(stop) }()
+	crashAt := vrtShape("crashAt", vrtParam("maxops", 40)) // 0 = clean stop
+	if crashAt > 0 {
+		zxCrashAt = crashAt
+	}
+	crashed := vrtCatchCrash(func() {
+		rs.processInserts(make(common.OffsetsBySource), stop)
+	})
+	if crashAt > 0 && !crashed {
+		return
+	}
+	keepMode := 0
+	if crashed {
+		keepMode = vrtShape("keep", 3)
+	}
+	zxAfterCrash(func(name string, unsynced int) int {
+		switch keepMode {
+		case 0:
+			return 0
+		case 1:
+			return unsynced / 2
+		}
+		return unsynced
+	})
+	got, ok := zxRecover2(fields)
+	vrtAssert(ok, "the row store reopens and scans (crash step "+zxItoa(crashAt)+")")
+	if !ok {
+		return
+	}
+	want := 0.0
+	if got.offs >= 5 {
+		want += produced[5]
+	}
+	if got.offs >= 10 {
+		want += produced[10]
+	}
+	vrtAssert(got.offs == 0 || got.offs == 5 || got.offs == 10, "the recovered offset is that of a processed entry")
+	if !crashed {
+		vrtAssert(got.offs == 10, "after a clean stop everything processed is on disk")
+	}
+	vrtAssert(got.a["x"] == want, "disk holds all values of each entry up to the recovered offset and nothing of later entries ("+zxItoa(n)+" elements, flush after insert "+zxItoa(flushAfter)+", crash step "+zxItoa(crashAt)+")")
+	vrtReach("C02.A")
 }
